@@ -77,6 +77,10 @@ func checkMetaUTF(mc MetaUTFCase) (key, msg string, out uint64) {
 		return k, m, 0
 	}
 	rd, _, _, k, m := writeWithField(mc.Field, mc.Value)
+	if k == "stl.write.error" {
+		// a writer may refuse a value its code page cannot express: an error is a layout no reader will misread
+		return "", "", core.Hash64("refused")
+	}
 	if k != "" {
 		return k, m, 0
 	}
